@@ -85,4 +85,9 @@ theorem C11_without_copy_counterexample :
     ((openForm true "GLC-OL".toList id (openForm true "GLC-OL".toList onic w).1).2 = (openForm true "GLC-OL".toList id w).2) := by
   decide
 
+/-- A generator that is never advanced leaves the process exactly as it was – logger switch included – whatever the arguments. -/
+theorem C11_unstarted_generator_no_effect (conv : Input → Outcome) (single : Option Input)
+    (list fileLines gen : Option (List Input)) (verbose : Verbose) (w : World) :
+    (convertGeneratorUnstarted conv single list fileLines gen verbose w).2 = w := rfl
+
 end Gly.Props.C11
